@@ -5,6 +5,12 @@
              coq/theory/LayoutPlace.v  hand model of SchemPlacerBase._place/_xlink/_ylink/_make_graphs,
                                        Graph.add, Cnodes.link; constraints_from_hints
              coq/theory/LayoutMulti.v  components with any number of pins: model constraints <-> all-pairs statement
+             coq/theory/LayoutPrune.v  Graph.prune: parallel-edge reduction, a fixed edge survives in both views
+             coq/theory/LayoutLineq.v  Lineq.add constraint table (a fixed entry is never replaced), evaluated in Coq
+                                       against the real Lineq.constraints
+             coq/theory/LayoutSolve.v  Graph.solve stages (longest_path/makepath, assign_longest, assign_fixed,
+                                       assign_stretchy, path_to_closest_known) as an executable model, evaluated in
+                                       Coq against the real solve on every generated graph; refutation theorems
   translate  lcapy/schemcpts.py + lcapy/schematics/components/*.py -> Gen/LayoutGen.v   (tools/tr_schem.py)
              pin tables, node pinnames, stretch flags, direction->angle->matrix table, with obligations
   prove      coq/props/C20.v (property theorems) + Gen/LayoutGen.v obligations
@@ -41,15 +47,20 @@ MANIFEST = {
             '(= when fixed), other coordinate equal", also after multiplying by node_spacing; for a component with any number of pins '
             'the model constraints on an axis are equivalent to the all-pairs statement used by the validation; the longest-path distances of '
             'Graph.longest_path (fuelled model) satisfy every >= constraint of every DAG; the emission loop emits each '
-            'non-ignored element once.  Pin tables, stretch flags and the direction->angle->rotation table are regenerated '
+            'non-ignored element once; Graph.prune keeps a fixed edge (in the forward and the reverse view) and otherwise a largest '
+            'stretchy one; a fixed entry of the Lineq.add constraint table is never replaced.  The stages of Graph.solve '
+            '(longest_path/makepath, assign_longest, assign_fixed, assign_stretchy, path_to_closest_known) are an executable Coq model '
+            'evaluated against the real solve on every generated graph, with REFUTATION theorems: four concrete feasible constraint '
+            'graphs on which the modelled rules violate a constraint (the open findings).  Pin tables, stretch flags and the direction->angle->rotation table are regenerated '
             'from the source on every run with vm_compute obligations.  PARTIAL: the placement heuristics assign_fixed/'
             'assign_stretchy and the Lineq LU solve are not proved; instead every generated schematic (consistent hints by '
             'construction, one-port networks in horizontal/vertical/ladder form, both placers, node_spacing/scale/cpt_size) is '
             'validated: the verified checker is evaluated inside Coq on the positions the real code produced.',
     'note': 'Trusted: Coq kernel/vm_compute; tools/tr_schem.py; the netlist-hint -> constraint reading in checks/c20.py (written from '
             'the property statement; its consistency witness is re-checked in Coq); float->rational conversion of positions with '
-            'Fraction(x).limit_denominator(10**6); TikZ text parsing by regular expressions. Not proved (validated per case only): '
-            'Graph.assign_fixed/assign_stretchy/prune, Lineq.solve (scipy LU), transistor/K/inamp/fdopamp pin geometry, '
+            'Fraction(x).limit_denominator(10**6); TikZ text parsing by regular expressions. Modelled and tied by in-Coq correspondence (not proved feasible - '
+            'refuted): Graph.solve stages; modelled with theorems: Graph.prune, Lineq.add. Outside the model (validated per case only): Lineq.solve (scipy LU), '
+            'graphs with more than 18 gnodes for the solve-stage model, transistor/K/inamp/fdopamp pin geometry, '
             'non-right-angle rotate, offset, mirror/invert, implicit nodes.',
     'technique': 'Coq proof (checker soundness/completeness, longest-path feasibility by induction, constraint extraction) + '
                  'fail-closed AST translation of geometry tables + translation validation of real placements by the verified checker inside Coq',
@@ -1112,9 +1123,14 @@ CASES_HEADER = '''(* GENERATED by checks/c20.py: the verified checker and the ha
    constraint #index (hint set not consistent: generator bug); 4 node #index does not have exactly one
    \\coordinate; 5/6 model x/y edges differ from the real graph; 7/8 model common-node classes differ;
    9/10 model longest-path distance differs for gnode #index; 11/12 x/y group #index of parallel edges:
-   what prune() left in the forward or in the reverse edge list is not LayoutPrune.best of the group *)
+   what prune() left in the forward or in the reverse edge list is not LayoutPrune.best of the group;
+   13/14 x/y gnode #index: LayoutSolve.solve (model of longest_path/assign_longest/assign_fixed/assign_stretchy)
+   puts it elsewhere than the real Graph.solve did (15/16: same, for a graph with sizes that are not exact
+   binary fractions - counted only, rounding may break a tie differently);
+   17/18 lineq placer: LayoutLineq.lineq_table folded over the model's x/y edges differs from the real
+   Lineq.constraints *)
 From Coq Require Import QArith List Bool Arith.
-Require Import LT.Layout LT.LayoutPath LT.LayoutPlace LT.LayoutPrune.
+Require Import LT.Layout LT.LayoutPath LT.LayoutPlace LT.LayoutPrune LT.LayoutSolve LT.LayoutLineq.
 Import ListNotations.
 Local Open Scope Q_scope.
 Definition tag (c t : nat) (l : list nat) : list (nat * nat * nat) := map (fun i => (c, t, i)) l.
@@ -1160,6 +1176,22 @@ def coq_case(k, case, res, ev, geoms, with_model):
     L.append('Definition drawn_%d : list nat := [%s].' % (k, '; '.join('%d%%nat' % i for i in sorted(ids.values()))))
     L.append('Definition coords_%d : list nat := [%s].' % (k, '; '.join('%d%%nat' % i for i in coords)))
     parts.append('tag %d 4 (not_one drawn_%d coords_%d)' % (k, k, k))
+    if with_model and res.get('graphs') and case['method'] == 'lineq' and all('table' in res['graphs'][a] for a in 'xy'):
+        ks = model_cpts(case, res, geoms, ids)
+        if ks is not None:
+            L.append('Definition ks_%d : list cpt := %s.' % (k, ks))
+            L.append('Definition nodes_%d : list nat := [%s].' % (k, '; '.join('%d%%nat' % ids[n] for n in sorted(res['nodes'], key=lambda n: ids[n]))))
+            for ax, t0 in (('x', 17), ('y', 18)):
+                tab = res['graphs'][ax]['table']
+                real = '[' + '; '.join('mkL %d%%nat %d%%nat %s %s' % (min(ids[m] for m in f), min(ids[m] for m in t), qlit(Fraction(sz)),
+                                                                     'true' if st else 'false') for f, t, sz, st in tab) + ']'
+                L.append('Definition lab_%s_%d := cnodes nodes_%d (%slinks_of ks_%d).' % (ax, k, k, ax, k))
+                L.append('Definition lt_%s_%d : list lcon := %s.' % (ax, k, real))
+                parts.append('tag %d %d (flag (same_table (lineq_table (map (gedge_lab lab_%s_%d) (%sedges_of ks_%d))) lt_%s_%d))' % (
+                    k, t0, ax, k, ax, k, ax, k))
+            ev.setdefault('lineq_table_model', []).append('evaluated')
+        else:
+            ev.setdefault('lineq_table_model', []).append('geometry_not_modelled_skipped')
     if with_model and res.get('graphs') and case['method'] == 'graph':
         ks = model_cpts(case, res, geoms, ids)
         if ks is not None:
@@ -1184,6 +1216,13 @@ def coq_case(k, case, res, ev, geoms, with_model):
                     items = ['([%s], %s, %s)' % ('; '.join(pe(x) for x in ge), one(gf), one(gv)) for _, _, ge, gf, gv in grp]
                     L.append('Definition pg_%s_%d : list (list pedge * option pedge * option pedge) := [%s].' % (ax, k, '; '.join(items)))
                     parts.append('tag %d %d (prune_bad pg_%s_%d)' % (k, t0 + 6, ax, k))
+                sv = solve_case_coq(k, ax, res['graphs'][ax])
+                if isinstance(sv, tuple):
+                    L.append(sv[0])
+                    parts.append(sv[1])
+                    ev.setdefault('solve_model', []).append('evaluated')
+                else:
+                    ev.setdefault('solve_model', []).append(sv)
                 if ngn:
                     L.append('Definition pe_%s_%d : list (edge Q) := with_start_end %s %s %d%%nat %d%%nat.' % (ax, k, gn, pruned, ns, ns + 1))
                     L.append('Definition rd_%s_%d : list (nat * option Q) := %s.' % (ax, k, dist))
@@ -1202,11 +1241,14 @@ def solve_case_coq(k, ax, g, max_gnodes=18):
     if len(si) > max_gnodes:
         return 'large'
     ids = {'|'.join(lab): i for i, (lab, _, _) in enumerate(si)}
+    exact = True
     for lab, fe, re_ in si:
         for to, size, st, raw in fe + re_:
-            # the model computes in Q; it must agree with the float run only when every size is exact in binary
+            # the model computes in Q; it MUST agree with the float run only when every size is exact in binary
+            # (otherwise a tie between two candidate paths can be broken differently by rounding): such graphs
+            # are still evaluated, a difference is only counted (tags 15/16)
             if Fraction(float(raw)) != Fraction(size):
-                return 'inexact'
+                exact = False
     if 'start' not in ids or 'end' not in ids:
         return 'no_solve'
 
@@ -1226,7 +1268,7 @@ def solve_case_coq(k, ax, g, max_gnodes=18):
     nm = 'sv_%s_%d' % (ax, k)
     txt = ('Definition svF_%s_%d : adj := %s.\nDefinition svR_%s_%d : adj := %s.\n'
            'Definition %s := tag %d %d (solve_bad svF_%s_%d svR_%s_%d [%s] %d%%nat %d%%nat [%s]).\n') % (
-        ax, k, F, ax, k, R, nm, k, 13 if ax == 'x' else 14, ax, k, ax, k, '; '.join('%d%%nat' % i for i in gn),
+        ax, k, F, ax, k, R, nm, k, (13 if ax == 'x' else 14) + (0 if exact else 2), ax, k, ax, k, '; '.join('%d%%nat' % i for i in gn),
         ids['start'], ids['end'], '; '.join(real))
     return txt, nm
 
@@ -1426,7 +1468,7 @@ def theory_ready():
         return True
     except RuntimeError:
         # another property's theory file may be mid-edit; ours must be compiled and fresh
-        for f in ('Layout', 'LayoutPath', 'LayoutPlace', 'LayoutMulti', 'LayoutPrune'):
+        for f in ('Layout', 'LayoutPath', 'LayoutPlace', 'LayoutMulti', 'LayoutPrune', 'LayoutSolve', 'LayoutLineq'):
             v = os.path.join(core.COQ_THEORY, f + '.v')
             vo = v + 'o'
             if not os.path.exists(vo) or os.path.getmtime(vo) < os.path.getmtime(v):
@@ -1492,14 +1534,14 @@ def run(tier='quick', replay=None):
         for f, t in texts.items():
             w.write(f, t)
         bad = core.gate_text('generated', '\n'.join(texts.values()))
-        bad += core.gate_files([os.path.join(core.COQ_THEORY, f) for f in ('Layout.v', 'LayoutPath.v', 'LayoutPlace.v', 'LayoutMulti.v', 'LayoutPrune.v')])
+        bad += core.gate_files([os.path.join(core.COQ_THEORY, f) for f in ('Layout.v', 'LayoutPath.v', 'LayoutPlace.v', 'LayoutMulti.v', 'LayoutPrune.v', 'LayoutSolve.v', 'LayoutLineq.v')])
         if bad:
             res.failed_obl.append(('gate', 'generated', '; '.join(bad)))
             res.obligations += 1
         cr = core.coqc_many(w.dir, list(texts), timeout=600)
         res.coq_results(w.dir, cr, texts)
         # theory theorems are obligations of this property too (compiled by setup; count them)
-        for f in ('Layout.v', 'LayoutPath.v', 'LayoutPlace.v', 'LayoutMulti.v', 'LayoutPrune.v'):
+        for f in ('Layout.v', 'LayoutPath.v', 'LayoutPlace.v', 'LayoutMulti.v', 'LayoutPrune.v', 'LayoutSolve.v', 'LayoutLineq.v'):
             n = len(core.obligations_in(open(os.path.join(core.COQ_THEORY, f)).read()))
             res.obligations += n
             if os.path.exists(os.path.join(core.COQ_THEORY, f + 'o')):
@@ -1552,6 +1594,10 @@ def run(tier='quick', replay=None):
             text, ids = coq_case(k, c, r, ev, geoms, with_model=True)
             ev['ids'] = ids
             coq_parts.append((k, text))
+            for why in ev.get('lineq_table_model', []):
+                res.count('lineq_table_model_' + why)
+            for why in ev.get('solve_model', []):
+                res.count('solve_model_' + (why if why == 'evaluated' else why + '_skipped'))
             nontrivial = len(c['lines']) >= 3
             res.add_case(fingerprint(c), nontrivial,
                          {'lines': c['lines'], 'method': c['method'], 'opts': c['opts'],
@@ -1583,6 +1629,10 @@ def run(tier='quick', replay=None):
         res.extra['coq_case_files'] = len(fn)
         bycase = {}
         for k, t, i in triples:
+            if t in (15, 16):
+                # solve-stage model vs real solve on a graph with sizes that are not exact in binary: counted only
+                res.count('solve_model_inexact_graph_differs')
+                continue
             bycase.setdefault(k, {}).setdefault(t, []).append(i)
         # python evaluator and Coq checker must agree (guards the glue)
         for k, ev in evs.items():
@@ -1615,10 +1665,12 @@ def run(tier='quick', replay=None):
                 res.count('violating_placement_' + c['method'])
             elif ev['tikz']:
                 tikz_bad.append((k, ev['tikz']))
-            for t in (5, 6, 7, 8, 9, 10, 11, 12):
+            for t in (5, 6, 7, 8, 9, 10, 11, 12, 13, 14, 17, 18):
                 if cq.get(t):
                     what = {5: 'x edges', 6: 'y edges', 7: 'x common nodes', 8: 'y common nodes', 9: 'x longest-path distances', 10: 'y longest-path distances',
-                            11: 'x pruned parallel edges (forward/reverse views)', 12: 'y pruned parallel edges (forward/reverse views)'}[t]
+                            11: 'x pruned parallel edges (forward/reverse views)', 12: 'y pruned parallel edges (forward/reverse views)',
+                            13: 'x solve-stage positions', 14: 'y solve-stage positions',
+                            17: 'x lineq constraint table', 18: 'y lineq constraint table'}[t]
                     res.disagreements.append({'case': public_case(c), 'differs': what})
         if tikz_bad:
             tikz_bad.sort(key=lambda t: len(cases[t[0]].get('lines', [])))
